@@ -34,6 +34,9 @@ def replay_ta_net(ck):
 def main():
     ck = Check("C02", "translation_validation")
     ck.lean_stage(["VelaVerif.Props.C02", "VelaVerif.Props.C02Addr"])
+    import pending
+
+    pending.register(ck)          # repairs written but not yet in the tree under test (harness/pending.py)
     if replay_ta_net(ck):
         return
     # address-generation link, function level: real Tensor methods against Model/TensorAddr.lean, Lean Spec on the real outputs
@@ -58,7 +61,7 @@ def main():
             ck.count("feature_" + f)
         if ans.get("bounds", 0) > 0:
             ck.violation(f"access outside published region extent: {ans['bounds_msgs'][0]} (network {o['idx']} {o['profile']} {o.get('opts')})",
-                         stream_checks.replay_obj(o, si, ans, line))
+                         stream_checks.replay_obj(o, si, ans, line), key=stream_checks.classify_source(o, ans['bounds_msgs'][0]))
     # Dedicated-SRAM clause: published fast-scratch extent <= configured arena cache size
     for o in outs:
         ext = o.get("extents")
